@@ -205,7 +205,7 @@ func checkC01() fw.Check {
 			seeds := 1
 			if tier == "thorough" {
 				wins, bases = windowsThorough, basesThorough
-				seeds = 8
+				seeds = 40
 			}
 			var cases []fw.Case
 			for _, v := range refmatch.Variants {
